@@ -28,6 +28,7 @@ Theorem c07_src_stream :
   (bits = 8 \/ bits = 16 \/ bits = 32) -> 0 <= seq0 < 2 ^ bits ->
   1 <= seg -> (mode = ACKED \/ mode = UNACKED) ->
   calculate_checksum (r_cktype r) (Some d) (zlen d) seg = Ok cks ->
+  (mode = ACKED -> 0 < r_ack_ms r) -> (mode = UNACKED -> closure = true -> 0 < l_check_ms c) ->
   let s1 := fst (put_request p (src_fresh c seq0 bits fs)) in
   exists s',
     pumps (2 + length (tiles seg d)) s1 =
